@@ -51,7 +51,9 @@ def _resource(which, style):
     return [pool[k] for k in which]
 
 
-ORDERS = [['L'], ['L', 'S'], ['S', 'Y', 'L'], ['L', 'X'], ['Y'], ['S', 'L', 'Y']]
+ORDERS = [['L'], ['L', 'S'], ['S', 'Y', 'L'], ['L', 'X'], ['Y'], ['S', 'L', 'Y']] + (
+    [['X', 'L'], ['S', 'X'], ['L', 'S', 'X'], ['Y', 'S'], ['S'], ['X', 'Y', 'S']] if rt.THOROUGH else [])
+NORD = len(ORDERS)
 
 
 def _pick(options, k):
@@ -63,7 +65,7 @@ def _pick(options, k):
 
 def h_not_modified(ko: int, new: bool, pre_l: bool) -> bool:
     """
-    pre: 0 <= ko < 6
+    pre: 0 <= ko < NORD
     post: _
     """
     style = '1.1' if new else '1.0'
@@ -83,7 +85,7 @@ def h_not_modified(ko: int, new: bool, pre_l: bool) -> bool:
 
 def h_skip_rules(ko: int, new: bool, pre_l: bool, pre_s: bool) -> bool:
     """
-    pre: 0 <= ko < 6
+    pre: 0 <= ko < NORD
     post: _
     """
     style = '1.1' if new else '1.0'
@@ -124,7 +126,7 @@ def h_skip_rules(ko: int, new: bool, pre_l: bool, pre_s: bool) -> bool:
 
 def h_routes(ko: int, new: bool, pre_l: bool) -> bool:
     """
-    pre: 0 <= ko < 6
+    pre: 0 <= ko < NORD
     post: _
     """
     # the file route (_add_lmf) against the in-memory route, same document
